@@ -5,10 +5,11 @@ from h5 import gen, lean, lexical, trees, wire
 
 ID = "C10"
 PROPS_MODULE = "H5.Props.C10"
+EXTRA_PROPS_MODULES = ["H5.Props.C10bSan", "H5.Props.C10b"]
 GEN_MODULES = ["Serializer", "Constants"]
 CORRESPONDENCE_OPS = []
 SOURCES = ["html5lib/filters/sanitizer.py", "html5lib/serializer.py", "html5lib/html5parser.py", "html5lib/_tokenizer.py"]
-LEVEL = "translation_validation"
+LEVEL = "proof"
 TRUSTED = ["composition of the component models (sanitizer, serializer, tokenizer, tree construction), each tied to /repo by its own "
            "correspondence; the composed safety theorem is not proved: decided by search on the real pipeline",
            "Safe(L) is evaluated on the re-parsed real tree by direct traversal with an independent browser-scheme function"]
